@@ -224,7 +224,19 @@ def setup():
     t0 = time.time()
     build_go2coq()
     regen()
-    ok, out = common.coq_make([f[:-2] + ".vo" for f in common.coq_sources()], timeout=7000)
+    import json
+    man = json.load(open(os.path.join(VERIF, "MANIFEST.json")))
+    targets = ["theories/Gen/Names.vo", "theories/Spec/Exec.vo"]
+    for c in man["checks"]:
+        v = "theories/Props/%s.v" % c["property_id"]
+        if os.path.exists(os.path.join(COQ, v)):
+            targets.append(v + "o")
+    # checks that generate their own data files do so when they run; build what exists now
+    ok, out = common.coq_make(targets, timeout=7000)
+    if not ok and "No rule to make target" in out:
+        for c in man["checks"]:
+            sh(["python3", os.path.join(VERIF, "bin", "check"), c["property_id"], "quick"], timeout=3000)
+        ok, out = common.coq_make(targets, timeout=7000)
     if not ok:
         log(out[-4000:])
         log("setup: coq build failed")
